@@ -22,7 +22,7 @@ LIMITS = {'quick': {'max_paths': 60000, 'max_s': 240}, 'thorough': {'max_paths':
 
 MIXES = {'single': [('read', 'm:a', None)], 'same': [('read', 'm:a', None), ('read', 'm:a', None)], 'distinct': [('read', 'm:a', None), ('read', 'm:b', None)],
          'rw': [('change', 'm:a', 1.5), ('read', 'm:a', None)]}
-PEERS = ['normal', 'error0', 'update', 'silent0', 'drop']
+PEERS = ['normal', 'error0', 'update', 'silent0', 'drop', 'send-fails']
 CLOSERS = ['after', 'race']
 
 
@@ -98,6 +98,9 @@ def _run_race(env, p, cosched, fc):
             cosched.yield_point('send')
             if self.closed:
                 raise BrokenPipeError('connection lost')
+            if p['peer'] == 'send-fails' and not self.sent and not getattr(self, 'failed_once', False):
+                self.failed_once = True
+                raise TimeoutError('send timed out')     # e.g. socket.timeout of sendall: the line is not transmitted
             self.sent.append(line)
             action, ident, data = decode_msg(line.strip())
             if action == 'describe' and p['peer'] == 'drop-in-handshake':
@@ -243,11 +246,11 @@ def _run_race(env, p, cosched, fc):
             if late.get(i):
                 env.check(False, K + '/request-queued-during-shutdown-released-by-time-out-only', [i, rq, o])
             else:
-                env.check(p['peer'] != 'drop', K + '/waiting-caller-released-by-time-out-only-after-connection-loss', [i, rq, o])
-                env.check(p['peer'] in ('silent0', 'drop'), K + '/caller-timed-out-although-peer-answered', [i, rq, o, [x for x in io.sent]])
+                env.check(p['peer'] not in ('drop', 'send-fails'), K + '/waiting-caller-released-by-time-out-only-after-connection-loss', [i, rq, o])
+                env.check(p['peer'] in ('silent0', 'drop', 'send-fails'), K + '/caller-timed-out-although-peer-answered', [i, rq, o, [x for x in io.sent]])
         else:
             env.note('race/released')
-            env.check(not quiet or p['peer'] in ('drop', 'drop-in-handshake'), K + '/connection-error-without-connection-loss', [i, o])
+            env.check(not quiet or p['peer'] in ('drop', 'drop-in-handshake', 'send-fails'), K + '/connection-error-without-connection-loss', [i, o])
             # released promptly: not by the 10 s time-out
             env.check(waited < 10.0, K + '/waiting-caller-not-released-promptly', [i, waited])
     # no reply is handed to two callers
